@@ -79,20 +79,35 @@ for _n in (3, 4):
 
 @contract('C15', 'path.Path.unit_tangent', params=[{'kinds': k, '_no_bounded': True} for k in ['L', 'LQ', 'QLC']], level='per-shape')
 def path_tangent_dispatches_through_T2t(c, kinds):
+    """Path.unit_tangent(T) is the unit tangent of the segment and parameter that T2t gives -
+    stated through the value, not through how it is computed: at a regular point
+    unit_tangent*|B'(t)| == B'(t); where the last segment starts with two coincident control
+    points and t == 0, it is the direction of travel (the limit), not an error"""
     path, segs, pts = mkpath(c, kinds)
     T = c.real('T')
     k0, t0 = len(segs) - 1, c.real('t_seg')
     c.ip.summaries['path.Path.T2t'] = lambda ip, f, a, k: (k0, t0)
-    seen = []
-
-    def ut(ip, f, a, k):
-        seen.append((a[0], a[1]))
-        return 'TANGENT'
-    for cls in ('Line', 'QuadraticBezier', 'CubicBezier'):
-        c.ip.summaries['path.%s.unit_tangent' % cls] = ut
+    P = pts[k0]
+    d = bez.dbern(P, t0, 1)
+    c.assume(ops.ne(d, 0))
     r = c.callm(path, 'unit_tangent', T)
-    c.ensures('unit_tangent(T)==segment[k].unit_tangent(t)-with-(k,t)=T2t(T)',
-              r == 'TANGENT' and len(seen) == 1 and seen[0][0] is segs[k0] and seen[0][1] is t0)
+    c.ensures("unit_tangent(T)*|Bk'(t)|==Bk'(t)-with-(k,t)=T2t(T)", ops.eq(r * ops.absv(d), d))
+    c.ensures('normal(T)==-i*unit_tangent(T)', ops.eq(c.callm(path, 'normal', T), ops.cx(0, -1) * r))
+
+
+@contract('C15', 'path.Path.unit_tangent', params=[{'kinds': k, '_no_bounded': True} for k in ['C', 'LC']], level='per-shape', budget=120)
+def path_tangent_at_a_singular_start_is_the_direction_of_travel(c, kinds):
+    path, segs, pts = mkpath(c, kinds)
+    k0 = len(segs) - 1
+    P = pts[k0]
+    c.assume(ops.eq(P[0], P[1]))
+    D = bez.dbern(P, 0, 2)
+    c.assume(ops.ne(D, 0))
+    c.set(segs[k0], 'control1', P[0])
+    c.ip.summaries['path.Path.T2t'] = lambda ip, f, a, k: (k0, 0)
+    r = c.callm(path, 'unit_tangent', c.real('T'))
+    c.ensures('modulus-1', ops.eq(ops.norm2(r), 1))
+    c.ensures('points-in-the-direction-of-travel', ops.eq(r * ops.absv(D), D))
 
 
 @contract('C15', 'path.bezier_unit_tangent', params=[{'end': e} for e in (0, 1)], budget=120)
